@@ -329,6 +329,11 @@ def _open_call_token(
     """
     try:
         raw = base64.b64decode(token, validate=True)
+        # Only the canonical text of a token is the token: ``validate=True``
+        # still ignores the unused low bits of the last character, so several
+        # texts decode to the same bytes.
+        if base64.b64encode(raw) != bytes(token):
+            raise ValueError("non-canonical base64")
     except Exception as exc:
         raise _RpcHttpError(
             RuntimeError("Malformed call token"),
@@ -581,6 +586,11 @@ def _open_cursor_token(
     """
     try:
         raw = base64.b64decode(token, validate=True)
+        # Only the canonical text of a token is the token: ``validate=True``
+        # still ignores the unused low bits of the last character, so several
+        # texts decode to the same bytes.
+        if base64.b64encode(raw) != bytes(token):
+            raise ValueError("non-canonical base64")
     except Exception as exc:
         raise _RpcHttpError(
             RuntimeError("Malformed state token"),
